@@ -24,7 +24,7 @@ EXPLANATION = ("every assignment is executed on the real class; oracle: "
 BOUNDS = {"quick": "full grid x lattice via setattr from both pre-states; "
                    "constructor and trait_set routes on every configuration "
                    "from the fresh pre-state for a 40-value sub-lattice",
-          "thorough": "full grid x full lattice x 3 routes x 2 pre-states"}
+          "thorough": "full grid + every ordered triple of 13 members as Either (1716 more configurations) x full lattice x 4 routes x 2 pre-states"}
 ASSUMPTIONS = ["values outside the lattice and option combinations outside "
                "the grid are not covered", "UI-only traits (Color, Font, "
                "Button) and Expression semantics are out of scope"]
@@ -199,12 +199,16 @@ def plan(cname, tier):
 
 
 def shards(tier):
+    if tier == "thorough":
+        L.add_triples()
     names = L.NAMES
     n = 32
     return [{"chunk": i, "of": n} for i in range(n)]
 
 
 def run_shard(ctx, shard, tier):
+    if tier == "thorough":
+        L.add_triples()
     import warnings
     names = L.NAMES[shard["chunk"]::shard["of"]]
     for cname in names:
